@@ -655,12 +655,12 @@ pub fn process<I: BufRead, O: Write>(
                                 // Open include file
                                 let mut px;
                                 let mut path = Path::new(&fname);
-                                if !path.exists() {
+                                if !path.is_file() {
                                     let mut found = false;
                                     for p in &context.include_directories {
                                         px = p.clone() + "/" + &fname;
                                         path = Path::new(&px);
-                                        if path.exists() {
+                                        if path.is_file() {
                                             found = true;
                                             break;
                                         }
